@@ -174,3 +174,15 @@ keep("c19-chunked", ["C19"], CTCP, "            self.writer.write(data)\n       
 brk("c08-config-control", "C08", "C08.CONFIG", CL, "            self.process_message, for_blobs=True\n        )", "            self.process_message\n        )")
 brk("c08-regress-null", "C08", "C08.NULL", VAL, 'return cls(base64.b64decode(binary_base64 or ""), format)', "return cls(base64.b64decode(binary_base64), format)")
 brk("c08-urlsafe", "C08", "C08.VALUE", VAL, "return base64.b64encode(self.binary).decode(\"latin1\")", "return base64.urlsafe_b64encode(self.binary).decode(\"latin1\")")
+
+# ---------------------------------------------------------------- round 7 rules
+brk("c12-regress-d27", "C12", "C12.POISON", E, "            if not finite:\n                raise ValueError(f\"Value of {self.name} is not a finite number\")", "            if not finite:\n                pass")
+brk("c12-d27-overflow-unhandled", "C12", "C12.POISON", E, "            except OverflowError:\n                finite = False", "            except OverflowError:\n                finite = True")
+keep("c12-d27-float-spelling", ["C12", "C10", "C06"], E, "                finite = math.isfinite(value)", "                finite = not (math.isinf(value) or math.isnan(value))")
+brk("c04-wire-setattr", "C04", "C04.WIRE", MB, "        return message_class(**kwargs)\n\n    @classmethod\n    def from_string", "        message = message_class(**kwargs)\n        for key, value in xml.attrib.items():\n            if key not in vars(message):\n                setattr(message, key, value)\n        return message\n\n    @classmethod\n    def from_string")
+brk("c07-range-int", "C07", "C07.RANGE", "indi/message/def_parts.py", "        self.step = step", "        self.step = int(step)")
+brk("c13-kind-subsumed", "C13", "C13.CHILD", "indi/message/def_parts.py", "class DefText(DefIndiMessagePart):", "from indi.message.one_parts import OneText\n\n\nclass DefText(DefIndiMessagePart, OneText):")
+brk("c14-selected-through-set-value", "C14", "C14.NOWRITE", E, "        self.value = const.SwitchState.ON if value else const.SwitchState.OFF", "        self.set_value(const.SwitchState.ON if value else const.SwitchState.OFF)")
+brk("c06-pending-truthy", "C06", "C06.SUBMIT", CE, "        return self._new_value is not None", "        return bool(self._new_value)")
+brk("c02-append-skip-blank", "C02", "C02.APPEND", BUF, "    def append(self, data: str):\n        self.buffer.write(data)", "    def append(self, data: str):\n        if data.strip():\n            self.buffer.write(data)")
+brk("c03-write-normalise-space", "C03", "C03.WRITE", MB, "    def to_xml(self, parent):\n        kwargs = {\n            k: str(v)\n", "    def to_xml(self, parent):\n        kwargs = {\n            k: \" \".join(str(v).split())\n")
